@@ -103,6 +103,21 @@ def generate(seed, tier):
                           'dset': pd, 'tool': pt, 'index': idx, 'parms': parms, 'parms_kind': pk, 'progress': prog,
                           'mask': mask, 'last_pixel': rng.randint(0, n - 1) if prog == 'legacy-partial' else n,
                           'foreign': False})
+        # a group of a tool whose name EXTENDS this tool's name (Fit_2, Fit_x, Fitter), same dataset, same parameters,
+        # complete or partial: 'Raw-Fit_2_000' must never be taken for results of tool 'Fit' (own stream: the
+        # cases drawn above stay what they were)
+        rc = derived_rng(seed, 'C05c', i)
+        if t == 'Fit' and rc.random() < 0.5:
+            pt = rc.choice(['Fit_2', 'Fit_2', 'Fit_x', 'Fitter', 'Fit-x'])
+            idx = used.get((d, _nt(pt)), 0)
+            used[(d, _nt(pt))] = idx + 1
+            prog = rc.choice(['complete', 'partial'])
+            mask = [1] * n
+            if prog == 'partial':
+                mask[rc.randrange(n)] = 0
+            prior.append({'also_last_pixel': None, 'src_ref': rc.choice(['none', 'this']),
+                          'dset': d, 'tool': pt, 'index': idx, 'parms': copy.deepcopy(BASE_PARMS), 'parms_kind': 'same',
+                          'progress': prog, 'mask': mask, 'last_pixel': n, 'foreign': False})
         separate = rng.random() < 0.3
         if separate and prior and rng.random() < 0.4:
             prior[rng.randrange(len(prior))]['foreign'] = True
